@@ -10,15 +10,25 @@ import (
 )
 
 func TestC15Scratch(t *testing.T) {
-	for _, s := range []string{`"\u007F"`, `"\u0080"`, `"\u009F"`, `"\uFFFE"`, `"\u0085"`, `"\u001b"`} {
+	for _, s := range []string{"\"\\u0085nel\"", "\"a\\u0085b\"", "\"nel\\u0085\"", "\"\\u2028ls\"", "\"a\\u2029b\"", "\"\\u00a0x\"", "\"\\uFEFFbom\"", "\" lead\"", "\"a\\r\\nb\"", "\"\\r\"", "\"a\\tb\"", "\"x\\n\"", "\"\\n\\nx\"", "\"a \\n b\"", "\"a\\u0085\\u0085b\"", "\"\\u0085\""} {
 		c, err := loader.LoadFiles([]*loader.BufferedFile{{Name: "Chart.yaml", Data: []byte("apiVersion: v2\nname: c\nversion: 1.0.0\nannotations:\n  k: " + s + "\n")}})
 		if err != nil {
 			fmt.Println(s, "LoadFiles:", err)
 			continue
 		}
 		d, _ := os.MkdirTemp("", "x")
-		_, err = chartutil.Save(c, d)
-		fmt.Printf("%s loaded annotation=%q Save err=%v SaveDir err=%v\n", s, c.Metadata.Annotations["k"], err, chartutil.SaveDir(c, d))
+		p, err := chartutil.Save(c, d)
+		if err != nil {
+			fmt.Println(s, "Save:", err)
+			continue
+		}
+		c1, err := loader.Load(p)
+		if err != nil {
+			fmt.Println(s, "Load:", err)
+			continue
+		}
+		fs, _ := c15ReadTgz(p)
+		fmt.Printf("%-20s before=%q after=%q same=%v   Chart.yaml=%q\n", s, c.Metadata.Annotations["k"], c1.Metadata.Annotations["k"], c.Metadata.Annotations["k"] == c1.Metadata.Annotations["k"], fs[0].Data)
 		os.RemoveAll(d)
 	}
 }
